@@ -2,6 +2,7 @@ package main
 
 import (
 	"go/token"
+	"go/types"
 	"strings"
 
 	"golang.org/x/tools/go/ssa"
@@ -127,6 +128,53 @@ func checkC10(e *Engine, r *Report) {
 
 	r.Rule("R2", "MUST-PASS+PROVENANCE", "every call of the mover transfer(ctx, from, to, amount, …) passes as `from` either caller.Address() itself, or a value v with the call dominated by the true edge of v == caller.Address() or by the nil-error edge of spendAllowance(ctx, v, caller.Address(), amount) with the same amount", 4, func() {
 		sites := e.repoCallSites(func(c ssa.CallInstruction) bool { return isCallTo(c, specTransfer) })
+		// a wrapper `spendAllowanceUnlessOwner(ctx, owner, spender, amount) error` is as good as spendAllowance when it has the same
+		// parameter list and can return nil only if owner == spender or spendAllowance(ctx, owner, spender, amount) did
+		wrapMemo := map[*ssa.Function]bool{}
+		isSpendWrapper := func(w *ssa.Function) bool {
+			if w == nil || w == spend || !privHelper(pkgCpcKeeper)(w) || len(w.Params) != len(spend.Params) {
+				return false
+			}
+			if v, ok := wrapMemo[w]; ok {
+				return v
+			}
+			for i := range w.Params {
+				if i > 0 && !types.Identical(w.Params[i].Type(), spend.Params[i].Type()) {
+					wrapMemo[w] = false
+					return false
+				}
+			}
+			owner, spender := ssa.Value(w.Params[2]), ssa.Value(w.Params[3])
+			gEq := eqGuards(w, true, func(v ssa.Value) bool { return resolveLocal(v) == owner }, func(v ssa.Value) bool { return resolveLocal(v) == spender })
+			passThrough := func(c *ssa.Call) bool {
+				if !isCallTo(c, specSpend) {
+					return false
+				}
+				for k := 1; k <= 3; k++ {
+					if resolveLocal(argOf(c, k)) != ssa.Value(w.Params[1+k]) {
+						return false
+					}
+				}
+				return true
+			}
+			gs := append([]Guard{}, gEq...)
+			for _, g := range errNilGuards(w, passThrough) {
+				if failEdgeReturnsError(w, g, nil) {
+					gs = append(gs, g)
+				}
+			}
+			ok := len(successReturns(w)) > 0
+			for _, ret := range successReturns(w) {
+				if c, _ := callOf(ret.Results[len(ret.Results)-1]); c != nil && passThrough(c) {
+					continue // `return e.spendAllowance(ctx, owner, spender, amount)`
+				}
+				if !mustPass(w, ret, gs) {
+					ok = false
+				}
+			}
+			wrapMemo[w] = ok
+			return ok
+		}
 		for _, cs := range sites {
 			fn := cs.Fn
 			key := "transfer call › " + fnKey(fn)
@@ -144,7 +192,7 @@ func checkC10(e *Engine, r *Report) {
 			isCaller := func(v ssa.Value) bool { return isCallerAddress(v, fn) }
 			gs := eqGuards(fn, true, isFrom, isCaller)
 			spendOK := errNilGuards(fn, func(c *ssa.Call) bool {
-				if !isCallTo(c, specSpend) {
+				if !isCallTo(c, specSpend) && !isSpendWrapper(c.Call.StaticCallee()) {
 					return false
 				}
 				return isFrom(argOf(c, 1)) && isCaller(argOf(c, 2)) && sameLocal(argOf(c, 3), amount)
